@@ -30,9 +30,18 @@ CHECKS = {
  "C10": dict(engine="enum+simnet", technique=B_TECH + "; connection part: " + A_TECH,
    text="Codec part: streams of valid packets with payload sizes around chunk/varint boundaries, all 2^(n-1) fragmentations up to 11/14 bytes and every single/double cut and fixed chunk size beyond, x min_chunk_size {0,1,4,1024,32768}, compared with the reference parse of the unfragmented stream.",
    note="Trusts refmqtt.rs. Connection part not built yet in this revision.", design="4/C10"),
+ "C12": dict(engine="simnet", technique=A_TECH,
+   text="v3 server (default in-flight middleware), v5 server (Receive Maximum + size middleware) and v5 client: max_receive {1,2}/{0..3} x max_receive_size {0, 30 B, 64 KiB}; bursts of up to 3/4 publishes incl. one delivered in pieces against gated handlers, deliveries and completions in every order with <=1 injection; invariants after every step (executing handlers <= max_receive, bytes <= max_receive_size + largest packet), 0x93 never for a peer within quota, and after the drain every complete publish was handled with its full payload.",
+   note=A_NOTE + " One known finding (C12-3: limit overshoot by one right after a streamed payload on the v3 server).", design="4/C12"),
  "C13": dict(engine="simnet", technique=A_TECH,
    text="Same world as C05 plus readiness futures, cancellation of parked tasks and back-pressure episodes; liveness is judged at quiescence after the correct peer has acknowledged everything it received: every non-cancelled send/ready future must have completed and the connection must be up.",
    note=A_NOTE + " Cancellation is applied to waiting (parked) futures only, as in the statement.", design="4/C13"),
+ "C16": dict(engine="simnet", technique=A_TECH,
+   text="Per role and version every sequence of up to 3 (quick) / 4 (thorough) well-formed packets over 26-30 templates (every packet type incl. illegal directions, ids in use/free/unknown, PUBLISH complete/split/incomplete/duplicate/retain/wildcard/alias, second CONNECT, every ack type) against 4 application states (idle, outstanding sends, gated handlers, instead of the handshake); oracle: no panic, poll horizon never hit, at most one Stop with a protocol-error reason unless a DISCONNECT is in the sequence, and a connection without Stop still answers a probe.",
+   note=A_NOTE, design="4/C16"),
+ "C17": dict(engine="simnet", technique=A_TECH,
+   text="v5 server and client, plain handler and topic router: every sequence of up to 4 (quick) / 5 (thorough) publishes over topic {a,b,empty} x alias {none,1,2,3} with Topic Alias Maximum 2 against a per-connection reference map (resolved topic, chosen resource handler, or protocol error), plus a two-connection world in which bindings made on one connection must not resolve on the other.",
+   note=A_NOTE, design="4/C17"),
  "C18": dict(engine="enum", technique=B_TECH,
    text="Every string over {a,b,$,/,+,#} up to length 6 (quick) / 8 (thorough) is validated, every (valid filter, topic<=6/7) pair is matched, and every ordered pair of valid filters up to length 5/6 is tested for covering, against a 40-line reference transcribed from MQTT 4.7; exhaustive within those bounds.",
    note="Trusts the reference in harness/src/c18.rs; alphabet of 6 ASCII symbols plus two multi-byte characters; hook verif::topic_is_valid exposes the dispatcher's validator.",
